@@ -307,7 +307,7 @@ func treeMutations(file string, tree interface{}, uris []string, suffixes []stri
 
 func c14(r *hx.Run) {
 	fx.Quiet()
-	r.Rule = "six valid batch file sets (all four types; creates only; updates only; deactivates only; recover+update; 6 operations) are decoded to JSON trees; every structural mutation at every JSON path of every file (delete, duplicate, swap, null, [], {}, \"\", 0, true, foreign values, every didSuffix reference pointed at every other DID of the batch, every URI retargeted to another file / itself / missing / over-long / empty; thorough: all pairs of mutations on two different files), entries moved between lists, each operation duplicated consistently in every file that references it with the anchor count raised, count skews, every truncation of every compressed file, gzip header/trailer substitutions, uncompressed content, exact size and decompression boundaries per size parameter, the URI length boundary, an anchor-string grammar, and every subset of failing CAS reads x alternate-source configurations are served to the real OperationProvider: it must return an error or operations satisfying the success invariant (count, distinct suffixes, validated deltas, parseable signed data) and never panic; the listed rejection classes must be errors. Non-trivial: distinct mutated inputs that are rejected plus those accepted with the invariant checked."
+	r.Rule = "six valid batch file sets (all four types; creates only; updates only; deactivates only; recover+update; 6 operations) are decoded to JSON trees; every structural mutation at every JSON path of every file (delete, duplicate, swap, null, [], {}, \"\", 0, true, foreign values, every didSuffix reference pointed at every other DID of the batch, every URI retargeted to another file / itself / missing / over-long / empty; thorough: all pairs of mutations on two different files), entries moved between lists, each operation duplicated consistently in every file that references it with the anchor count raised, count skews, every truncation of every compressed file, gzip header/trailer substitutions, uncompressed content, exact size and decompression boundaries per size parameter (also with the excess in a second gzip member), the URI length boundary, an anchor-string grammar, and every subset of failing CAS reads x alternate-source configurations are served to the real OperationProvider: it must return an error or operations satisfying the success invariant (count, distinct suffixes, validated deltas, parseable signed data) and never panic; the listed rejection classes must be errors. Non-trivial: distinct mutated inputs that are rejected plus those accepted with the invariant checked."
 	p := fx.DefaultProtocol()
 	dids := []*fx.DIDOps{fx.NewDIDOps(fx.Ed25519, fx.SHA256, "a"), fx.NewDIDOps(fx.Ed25519, fx.SHA256, "b"), fx.NewDIDOps(fx.P256, fx.SHA256, "c"),
 		fx.NewDIDOps(fx.Ed25519, fx.SHA256, "d"), fx.NewDIDOps(fx.Ed25519, fx.SHA256, "e"), fx.NewDIDOps(fx.Ed25519, fx.SHA256, "f")}
@@ -590,6 +590,24 @@ func c14(r *hx.Run) {
 						mustReject("over-decompression-limit", id, pp, fs.trees, map[string][]byte{f: gz}, fs.count)
 					} else {
 						mustAccept("decompressed-size", id, pp, fs.trees, map[string][]byte{f: gz})
+					}
+					// the same total split over two gzip members (RFC 1952: the file is the concatenation of its members): the file
+					// itself in the first member, the padding in the second
+					second := fx.Gzip([]byte(strings.Repeat(" ", target-len(js))))
+					if target > len(js) {
+						multi := append(append([]byte{}, fx.Gzip(js)...), second...)
+						if len(multi) <= int(P) {
+							id2 := fmt.Sprintf("decompressed-size-two-members:%s:factor=%d:over=%d", f, F, extra)
+							if extra == 1 {
+								mustReject("over-decompression-limit:two-gzip-members", id2, pp, fs.trees, map[string][]byte{f: multi}, fs.count)
+							} else if r.Want(fs.name + "|" + id2) {
+								// at the limit: accepted (all members read) or rejected (multi-member streams refused) - never a panic, and
+								// an accepted result satisfies the invariant
+								c, a := fs.assemble(fs.trees, map[string][]byte{f: multi}, fs.count)
+								c14Read(r, fs.name+"|"+id2, pp, c, a, nil)
+								r.Nontrivial(fs.name + "|" + id2)
+							}
+						}
 					}
 				}
 			}
